@@ -109,6 +109,9 @@ func RegisterIntrinsics(m *Machine) {
 		if f, ok := a[0].(Float); ok {
 			return Float{math.Floor(f.F)}
 		}
+		if o, ok := a[0].(Opaque); ok && o.Kind == "fquot" {
+			return Opaque{Kind: "ffloor", V: o.V}
+		}
 		panic(unsupported("math.Floor of symbolic value"))
 	}
 	I["strings.Repeat"] = func(p *Path, c *ssa.CallCommon, a []Val) Val {
